@@ -10,8 +10,8 @@ import time
 from common import *  # noqa
 
 
-def theorem_side(prop):
-    """Build the development, run hygiene + Print Assumptions. Returns (ok, info, msg)."""
+def theorem_side(prop, tier="quick"):
+    """Build the development, run hygiene + Print Assumptions (+ coqchk in the thorough tier). Returns (ok, info, msg)."""
     info = {}
     ok, out = build_coq()
     if not ok:
@@ -29,6 +29,11 @@ def theorem_side(prop):
         return False, info, "assumptions not closed: %s missing: %s" % (bad, missing)
     info["obligations"] = count_qed(prop.PROOF_FILES)
     info["theorems"] = prop.THEOREMS
+    if tier == "thorough":
+        okc, summary = coqchk(prop.THEOREM_REQUIRES)
+        info["coqchk"] = summary
+        if not okc:
+            return False, info, "coqchk does not accept the compiled development / reports axioms: " + summary[-600:]
     return True, info, ""
 
 
@@ -123,7 +128,7 @@ def classify(prop, recs):
 def main_custom(prop, tier, seed, replay, t0):
     """Properties whose correspondence is not 'WGSL -> IR -> out' (processes, faults, timing): the module
     provides run(tier, seed, replay) -> {"violations": [payload], "broken": [payload], "coverage": {...}}."""
-    th_ok, th_info, th_msg = theorem_side(prop)
+    th_ok, th_info, th_msg = theorem_side(prop, tier)
     okb, bout = build_driver()
     if not okb:
         log(bout[-3000:])
@@ -162,6 +167,7 @@ def main_custom(prop, tier, seed, replay, t0):
         "trusted_base": TRUSTED_BASE + getattr(prop, "TRUSTED_EXTRA", []),
         "theorems": prop.THEOREMS,
         "print_assumptions": th_info.get("print_assumptions", {}),
+        "coqchk": th_info.get("coqchk", "not run in this tier (thorough only)"),
         "rule": prop.RULE,
         "repo_src_hash": repo_src_hash(),
         "known_findings_reported": sorted(reported),
@@ -186,7 +192,7 @@ def main(prop_name, tier, seed, replay=None):
     violations = 0
     lines = []
 
-    th_ok, th_info, th_msg = theorem_side(prop)
+    th_ok, th_info, th_msg = theorem_side(prop, tier)
     okb, bout = build_driver()
     if not okb:
         # the tree does not build with hooks on: nothing can be concluded; this is not a property verdict
@@ -297,6 +303,7 @@ def main(prop_name, tier, seed, replay=None):
         "trusted_base": TRUSTED_BASE + getattr(prop, "TRUSTED_EXTRA", []),
         "theorems": prop.THEOREMS,
         "print_assumptions": th_info.get("print_assumptions", {}),
+        "coqchk": th_info.get("coqchk", "not run in this tier (thorough only)"),
         "evaluations": len(recs),
         "evaluated_in_coq": len(evaluated),
         "distinct_nontrivial": len(nontriv),
